@@ -221,6 +221,12 @@ def obligations(tier):
         h = OutcrossShuffle(shape=list(shp), nid=nid)
         h.weight = 50
         obs.append(h)
+    if tier == "quick":
+        # non-square tables with more crosses than parents: two fully fixed 4x2 start tables (thorough enumerates all of them)
+        for pre in ([0, 0, 1, 1, 0, 1, 0, 1], [0, 1, 1, 1, 0, 0, 1, 0], [0, 0, 1, 0, 1, 1, 0, 1]):
+            h = OutcrossShuffle(shape=[4, 2], nid=2, prefix=pre, inductive=True)
+            h.weight = 100
+            obs.append(h)
     if tier == "thorough":
         # 4x2 tables over two ids, table space split by the first four cells
         for pre in itertools.product(range(2), repeat=4):
